@@ -7,10 +7,15 @@ export GOFLAGS=-mod=mod GOPROXY=off; unset GOWORK
 log=$out/confirm.log; : > $log
 cd $wt || exit 9
 git checkout -q -- . && git clean -fdq
-pkg=$(grep -ohE '(internal/[a-z]+|e2e|root package|`\./?`|repository root)' $out/notes.md | head -1)
-# find package dir from notes: look for explicit "internal/xxx" or e2e; root otherwise
-dir=$(grep -oE '(internal/(server|allocation|client|proto|ipnet)|e2e)/?' $out/notes.md | head -1)
-[ -z "$dir" ] && dir=.
+demo0=$(ls $out/*_test.go 2>/dev/null | head -1)
+pk=$(grep -m1 -E '^package ' $demo0 | awk '{print $2}')
+case "$pk" in
+  server|allocation|client|proto|ipnet|auth) dir=internal/$pk ;;
+  server_test|allocation_test|client_test|proto_test) dir=internal/${pk%_test} ;;
+  e2e|e2e_test) dir=e2e ;;
+  turn|turn_test) dir=. ;;
+  *) dir=. ;;
+esac
 demo=$(ls $out/*_test.go 2>/dev/null | head -1)
 [ -z "$demo" ] && { echo "NO-DEMO $out"; exit 1; }
 cp $demo $wt/$dir/zz_demo_test.go
